@@ -204,6 +204,42 @@ def replay(path: str) -> int:
     return 1 if rep['differs'] else 0
 
 
+RECURSION_SHAPES = {
+    'call': 'def f {\n f\n}\nf\n',
+    'rep': 'def f {\n rep(1, i) f\n}\nf\n',
+    'call-rep-alternation': 'def f {\n rep(1, i) g\n}\ndef g {\n f\n}\nf\n',
+    'rep-600-deep-valid': 'def f n {\n ;\n rep(n > 0, i) f n-1\n}\nf 600\n',
+}
+
+
+def recursion_validation(report: Report) -> None:
+    """NOT solver-decided (the quantity is a nesting depth of the expansion, a discrete structure): the symbolic runs above assume
+    that a runaway or deep macro recursion is stopped by the preprocessor's own depth guard; this runs each recursion shape (plain
+    call, through rep, call/rep alternation, a valid 600-deep rep recursion) through the public API at the default depth
+    and requires the specific diagnostic / success - never the generic funnel, never CPython's RecursionError."""
+    import multiprocessing as mp
+    ctx = mp.get_context('fork')
+    for name, text in RECURSION_SHAPES.items():
+        q = ctx.Queue()
+        case = {'src': text, 'model': {}, 'w': 64, 'version': 3, 'label': f'recursion/{name}'}
+        p = ctx.Process(target=lambda: q.put(replay_case(case)))
+        p.start()
+        try:
+            rep = q.get(timeout=120)
+        except Exception:  # noqa: BLE001
+            rep = {'differs': True, 'kind': f'no result (exit code {p.exitcode})', 'message': ''}
+        p.join(5)
+        if p.is_alive():
+            p.kill()
+        report.validation_runs += 1
+        want_ok = name.endswith('valid')
+        bad = rep['differs'] or (rep['kind'] == 'ok') != want_ok or (not want_ok and 'recursive depth' not in rep.get('message', ''))
+        if bad:
+            report.violations.append({'label': f'recursion/{name}: {rep["kind"]}: {rep.get("message", "")[:200]}',
+                                      'signature': f'c14:recursion:{name}:{rep["kind"]}',
+                                      'replay': common.write_replay('C14', f'recursion_{name}', case), 'detail': rep})
+
+
 def run(report: Report, tier: str, only: Optional[str] = None) -> None:
     from flipjump.assembler import assembler, fj_parser, preprocessor
     from flipjump.assembler.inner_classes import expr
@@ -226,8 +262,11 @@ def run(report: Report, tier: str, only: Optional[str] = None) -> None:
                           'widths': sorted({c['w'] for c in cfgs})})
     report.outside += ['text-level error classes (lexing errors, syntax errors, random byte mutations): the regex lexer and the '
                        'LALR tables cannot be driven by symbolic strings', 'never-hangs (resource exhaustion by huge rep/pad counts, '
-                       '2**(2**40))', 'macro recursion depth errors', 'the stl']
+                       '2**(2**40))', 'macro recursion depth as a symbolic quantity (four recursion shapes are validated concretely at the default depth: '
+                       'depth-guard diagnostic, not RecursionError)', 'the stl']
     report.assumptions += ['z3 5.1.0', 'pysym proxies']
     report.require_witnesses('c14:ok', 'c14:library-specific')
     common.run_pool(one, cfgs, report, chunksize=2)
+    if not only or 'recursion' in only:
+        recursion_validation(report)
     shutil.rmtree(common.scratch_dir('c14'), ignore_errors=True)
